@@ -26,7 +26,10 @@ Alphabets == [
   tokens   |-> <<"(", ")", "[", "]", "{", "}", "#{", "'", "\"]\"", "¬)¬", "a", "1", ":k", "; (\n">>,
   \* preamble-shaped texts (entries concatenated directly): module header, placeholder lines
   preamble |-> <<";; $MODULE ", ";; $MODULE", ";; $A 1", ";; $", "\n", "x", "$A", "(", ")", " ", ";;", "\n\n", "1", ";; $A">>,
-  tokens2  |-> <<"(", ")", "[", "]", "{", "}", "#{", "~@", "@", "^", "\"a\"", ":k", "`", "~">> ]
+  tokens2  |-> <<"(", ")", "[", "]", "{", "}", "#{", "~@", "@", "^", "\"a\"", ":k", "`", "~">>,
+  \* not an alphabet: hand-written preambles of 8 x len lines, each value naming the placeholder of the line above
+  \* twice (values are data: they are not expanded; PRINT of what is read stays small)
+  chain    |-> <<"x">> ]
 Sep == IF AlphaName \in {"tokens", "tokens2"} THEN " " ELSE ""
 A == Alphabets[AlphaName]
 NA == Len(A)
@@ -35,11 +38,19 @@ RECURSIVE Pow(_, _), TextOf(_, _)
 Pow(b, e) == IF e = 0 THEN 1 ELSE b * Pow(b, e - 1)
 TextOf(len, k) == IF len = 0 THEN "" ELSE A[(k % NA) + 1] \o Sep \o TextOf(len - 1, k \div NA)
 
+RECURSIVE Rep(_, _)
+Rep(x, n) == IF n = 0 THEN "" ELSE x \o Rep(x, n - 1)
+ChainText(n, k) ==
+  ";; $A 1\n" \o
+  Rep(CASE k = 0 -> ";; $A [$A $A]\n" [] k = 1 -> ";; $A {:k $A :j $A}\n" [] k = 2 -> ";; $B [$A $A]\n;; $A [$B $B]\n"
+        [] OTHER -> ";; $A ($A $A)\n", 8 * n) \o "\n$A"
+
 VARIABLES len, idx, ph
-Init == ph = 0 /\ len \in 0..MaxLen /\ idx \in 0..(Pow(NA, len) - 1)
+Init == /\ ph = 0 /\ len \in 0..MaxLen
+        /\ IF AlphaName = "chain" THEN len >= 1 /\ idx \in 0..3 ELSE idx \in 0..(Pow(NA, len) - 1)
 
 Next == /\ ph = 0 /\ ph' = 1 /\ UNCHANGED <<len, idx>>
-        /\ LET text == TextOf(len, idx)
+        /\ LET text == IF AlphaName = "chain" THEN ChainText(len, idx) ELSE TextOf(len, idx)
                r == Read(text)
                rt == IF r.st = "ok" THEN (LET r2 == Read(PrStr(r.v)) IN r2.st = "ok" /\ StructEq(r2.v, r.v)) ELSE TRUE
                c == [kind |-> "text", tag |-> AlphaName, text |-> text, cls |-> r.st, closer |-> r.closer,
